@@ -42,22 +42,23 @@ func computeChanges(targets map[configapi.TargetID]*targetInfo) (map[configapi.T
 // computeChange computes a given target change the given its updates and deletes, according to the path
 // on the configuration for the specified target
 func computeChange(target *targetInfo) (*configapi.PathValues, error) {
-	//updates
 	newChanges := make(map[string]*configapi.PathValue)
-	for path, value := range target.updates {
-		updateValue, err := valueutils.NewChangeValue(path, *value, false)
-		if err != nil {
-			return &configapi.PathValues{}, err
-		}
-		newChanges[path] = updateValue
-	}
-	//deletes
+	// deletes first: gNMI processes the deletes of a request before its replaces and updates, so an
+	// update of a path the same request deletes is what remains
 	for _, path := range target.removes {
 		deleteValue, err := valueutils.NewChangeValue(path, *configapi.NewTypedValueEmpty(), true)
 		if err != nil {
 			return &configapi.PathValues{}, err
 		}
 		newChanges[path] = deleteValue
+	}
+	//updates
+	for path, value := range target.updates {
+		updateValue, err := valueutils.NewChangeValue(path, *value, false)
+		if err != nil {
+			return &configapi.PathValues{}, err
+		}
+		newChanges[path] = updateValue
 	}
 
 	changeElement := &configapi.PathValues{
